@@ -502,9 +502,9 @@ class FanBeamGeometry(DivergentBeamGeometry):
         center_to_src_init = -self.src_radius * self.src_to_det_init
         # shifting the source according to ffs
         tangent = np.array([self.src_to_det_init[1], -self.src_to_det_init[0]])
-        ffs_shift = (np.multiply.outer(src_shifts[:, 0],
+        ffs_shift = (np.multiply.outer(src_shifts[..., 0],
                                        -self.src_to_det_init)
-                     + np.multiply.outer(src_shifts[:, 1], tangent))
+                     + np.multiply.outer(src_shifts[..., 1], tangent))
         center_to_src_init = center_to_src_init + ffs_shift
         pos_vec = (self.translation[None, :]
                    + np.einsum('...ij,...j->...i',
@@ -598,9 +598,9 @@ class FanBeamGeometry(DivergentBeamGeometry):
         center_to_det_init = self.det_radius * self.src_to_det_init
         # shifting the detector
         tangent = np.array([-self.src_to_det_init[1], self.src_to_det_init[0]])
-        shift = (np.multiply.outer(det_shifts[:, 0],
+        shift = (np.multiply.outer(det_shifts[..., 0],
                                    self.src_to_det_init)
-                 + np.multiply.outer(det_shifts[:, 1], tangent))
+                 + np.multiply.outer(det_shifts[..., 1], tangent))
         center_to_det_init = center_to_det_init + shift
         refpt = (self.translation[None, :]
                  + np.einsum('...ij,...j->...i',
@@ -1340,8 +1340,8 @@ class ConeBeamGeometry(DivergentBeamGeometry, AxisOrientedGeometry):
         # shifting the detector according to det_shift_func
         tangent = -np.cross(self.src_to_det_init, self.axis)
         tangent /= np.linalg.norm(tangent)
-        det_shift = (np.multiply.outer(det_shifts[:, 0], self.src_to_det_init)
-                     + np.multiply.outer(det_shifts[:, 1], tangent))
+        det_shift = (np.multiply.outer(det_shifts[..., 0], self.src_to_det_init)
+                     + np.multiply.outer(det_shifts[..., 1], tangent))
         center_to_det_init = center_to_det_init + det_shift
         # `circle_component` has shape (a, ndim)
         circle_component = np.einsum('...ij,...j->...i',
@@ -1352,7 +1352,7 @@ class ConeBeamGeometry(DivergentBeamGeometry, AxisOrientedGeometry):
         # `shift_along_axis` has shape angles.shape
         shift_along_axis = (self.offset_along_axis
                             + self.pitch * angle / (2 * np.pi)
-                            + det_shifts[:, 2])
+                            + det_shifts[..., 2])
         # Create outer product of `shift_along_axis` and `axis`, resulting
         # in shape (a, ndim)
         pitch_component = np.multiply.outer(shift_along_axis, self.axis)
@@ -1458,9 +1458,9 @@ class ConeBeamGeometry(DivergentBeamGeometry, AxisOrientedGeometry):
         # shifting the source according to ffs
         tangent = -np.cross(-self.src_to_det_init, self.axis)
         tangent /= np.linalg.norm(tangent)
-        ffs_shift = (np.multiply.outer(src_shifts[:, 0],
+        ffs_shift = (np.multiply.outer(src_shifts[..., 0],
                                        -self.src_to_det_init)
-                     + np.multiply.outer(src_shifts[:, 1], tangent))
+                     + np.multiply.outer(src_shifts[..., 1], tangent))
         center_to_src_init = center_to_src_init + ffs_shift
         circle_component = np.einsum('...ij,...j->...i',
                                      rot_matrix, center_to_src_init)
@@ -1470,7 +1470,7 @@ class ConeBeamGeometry(DivergentBeamGeometry, AxisOrientedGeometry):
         # `shift_along_axis` has shape angles.shape
         shift_along_axis = (self.offset_along_axis
                             + self.pitch * angle / (2 * np.pi)
-                            + src_shifts[:, 2])
+                            + src_shifts[..., 2])
         # Create outer product of `shift_along_axis` and `axis`, resulting
         # in shape (a, ndim)
         pitch_component = np.multiply.outer(shift_along_axis, self.axis)
